@@ -129,9 +129,17 @@ Definition entry (sel : Z) (toks : list Z) : list Z :=
          | Some (ippvs, plr, ippl, dra, t, vs) =>
            let tr := tracked_of t in let ps := plsup_of t in
            flat_map (fun st => tag 20 ++ eRes (st_task st) ++ eRes (st_task st) ++ eRes (st_used st))
-             (ev_trace (map (fun x : list positive * pod_meta * pod =>
-                               cache_task_resreq tr ps ippvs plr ippl dra x.1.1 x.1.2 x.2) vs))
+             (ev_hist code_keeps (fun x : list positive * pod_meta * pod =>
+                               cache_task_resreq tr ps ippvs plr ippl dra x.1.1 x.1.2 x.2) vs)
          | None => bad_input end
+  (* the harness's decision to apply law 107 to a history must be the extracted
+     decision "every version satisfies pod_ok" *)
+  | 108 => match run_dec (let* claimed := dBool in let* h := dHistory in ret (claimed, h)) toks with
+           | Some (claimed, (ippvs, plr, ippl, dra, t, vs)) =>
+             eBool (Bool.eqb claimed
+                      (forallb (fun x : list positive * pod_meta * pod =>
+                                  bool_decide (pod_ok (tracked_of t) (plsup_of t) x.2)) vs))
+           | None => bad_input end
   | 107 => match run_dec (let* up := dRes in let* crq := dRes in let* cirq := dRes in let* used := dRes in
                           ret (up, crq, cirq, used)) toks with
            | Some (up, crq, cirq, used) => eBool (law_event up crq cirq used)
